@@ -96,6 +96,7 @@ class World:
         self.horizon = horizon  # largest date of the model configuration being replayed
         self.strict = horizon != float('inf') and False
         self.pipe = None
+        self.pipe2 = None
         mk = Resources if reskind == 'res' else Capacities
         # nt = 2: every supply has two resource types, `a` and `b` (levels and amounts are vectors)
         self.nt = nt
@@ -536,7 +537,7 @@ class Puppet:
             self.w.log.append({'e': kind, 'a': self.a, 'i': i, 't': t})
 
     async def op_transfer(self, op):
-        pipe = self.w.pipe
+        pipe = self.w.pipe2 if op.get('pipe') == 2 else self.w.pipe     # (twin runs: a second, independent pipe)
 
         async def f():
             self.xemit('xb', op['i'])
@@ -832,7 +833,8 @@ def run_program(prog, nroots, nflags=2, nlocks=2, start=0, nqueues=2, nchans=2, 
     world = World(prog, nroots, nflags, nlocks, nqueues=nqueues, nchans=nchans, nres=nres, resinit=resinit,
                   reskind=reskind, horizon=horizon, nt=nt, resinitb=resinitb)
     if pipe is not None:
-        world.pipe = UnboundedPipe() if pipe == 0 else Pipe(throughput=pipe)
+        world.pipe = UnboundedPipe() if pipe == 0 else Pipe(throughput=float('inf') if pipe == 98 else pipe)
+        world.pipe2 = UnboundedPipe() if pipe == 0 else Pipe(throughput=float('inf') if pipe == 98 else pipe)
     if head is not None:
         world.log.append(head)
     world.log.append({'e': 'init', 'a': 0, 'res': [world.pools[i + 1].levels.a for i in range(world.nres)],
